@@ -138,12 +138,12 @@ def twins_oracle(rng):
         if zoo.all_params(a) != before:
             fails.append(rep(kind, "set_params(get_params)-not-a-noop"))
         # ... also with the module-valued entries get_params returns: nothing changes, no attribute appears
-        attrs = sorted(vars(a))
-        a.set_params(**gp)
-        if zoo.all_params(a) != before or sorted(vars(a)) != attrs:
-            fails.append(rep(kind, "set_params(get_params)-with-modules-not-a-noop", {"new_attributes": sorted(set(vars(a)) - set(attrs))}))
-            for k in set(vars(a)) - set(attrs):
-                delattr(a, k)
+        with contextlib.redirect_stdout(io.StringIO()):
+            a3 = mk(rho1)                      # on an instance of its own: a stray attribute must not leak into the twin runs below
+        before3, attrs = zoo.all_params(a3), sorted(vars(a3))
+        a3.set_params(**a3.get_params())
+        if zoo.all_params(a3) != before3 or sorted(vars(a3)) != attrs:
+            fails.append(rep(kind, "set_params(get_params)-with-modules-not-a-noop", {"new_attributes": sorted(set(vars(a3)) - set(attrs))}))
     except Exception as e:
         fails.append(rep(kind, "set_params(get_params)-raises", {"error": f"{type(e).__name__}: {str(e)[:80]}"}))
     # twins: a.set_params(rho=rho2) behaves like b constructed with rho2
@@ -163,6 +163,21 @@ def twins_oracle(rng):
                 fails.append(rep(kind, "fit-does-not-return-self"))
             if labels(a) != labels(b):
                 fails.append(rep(kind, "set_params-twin-differs-from-constructed", {"key": key}))
+            # after training (supervised kinds: with label conflicts, so match tracking ran) the parameters are still the
+            # ones set / constructed: get_params round-trips, and a re-fit behaves like the first fit
+            pa, pb = zoo.all_params(a), zoo.all_params(b)
+            if labels(a) != labels(b):
+                pass          # already reported above (the twin does not even behave like the constructed estimator)
+            elif pa != pb:
+                diff = sorted(k for k in set(pa) | set(pb) if pa.get(k) != pb.get(k))
+                fails.append(rep(kind, "set_params-twin-differs-from-constructed", {"key": key, "parameter_paths_that_differ": diff[:4], "twin": repr({k: pa.get(k) for k in diff[:2]})[:300],
+                                                                                         "constructed": repr({k: pb.get(k) for k in diff[:2]})[:300]}))
+            else:
+                with contextlib.redirect_stdout(io.StringIO()):
+                    fresh = mk(rho2)
+                if pa != zoo.all_params(fresh) and kind not in ("DeepARTMAP", "SMART"):     # Deep: layers are created by fit
+                    diff = sorted(k for k in set(pa) | set(zoo.all_params(fresh)) if pa.get(k) != zoo.all_params(fresh).get(k))
+                    fails.append(rep(kind, "training-changed-the-parameters", {"paths": diff[:4]}))
     except Exception as e:
         fails.append(rep(kind, "twin-raises", {"error": f"{type(e).__name__}: {str(e)[:80]}"}))
     # the estimator's OWN hyper-parameters (not routed to a nested module): value visible through get_params and
